@@ -137,13 +137,15 @@ class HttpxTransport:
             prepared_headers.update(current_request_kwargs["headers"])
 
         # 3. Apply authentication plugin or bearer token (which can further modify headers)
-        # We pass a temporary request_args dict containing only the headers to the auth plugin,
-        # as the auth plugin might expect other keys which are not relevant for header preparation.
-        # The auth plugin is expected to modify the 'headers' key in the passed dict.
-        temp_request_args_for_auth = {"headers": prepared_headers.copy()}
+        # The auth plugin sees a copy of the request arguments with the merged headers, so that plugins which
+        # authenticate outside the headers (e.g. an API key in the query string or in a cookie) can contribute.
+        temp_request_args_for_auth = {k: v for k, v in current_request_kwargs.items() if k != "headers"}
+        temp_request_args_for_auth["headers"] = prepared_headers.copy()
 
         if self._auth is not None:
             authenticated_args = await self._auth.authenticate_request(temp_request_args_for_auth)
+            # Hand non-header contributions of the plugin (params, cookies, ...) back to the request
+            current_request_kwargs.update({k: v for k, v in authenticated_args.items() if k != "headers"})
             # Ensure 'headers' key exists and is a dict after authentication
             if "headers" in authenticated_args and isinstance(authenticated_args["headers"], dict):
                 prepared_headers = authenticated_args["headers"]
@@ -182,11 +184,12 @@ class HttpxTransport:
             httpx.HTTPError: For network errors or invalid responses.
             HTTPError: For non-2xx HTTP responses.
         """
-        # Prepare request arguments, excluding headers initially
-        request_args: dict[str, Any] = {k: v for k, v in kwargs.items() if k != "headers"}
-
         # This method handles default headers, request-specific headers, and authentication
+        # (it also records non-header contributions of the auth plugin in kwargs)
         prepared_headers = await self._prepare_headers(kwargs)
+
+        # Prepare request arguments: everything but the headers as given/authenticated, plus the prepared headers
+        request_args: dict[str, Any] = {k: v for k, v in kwargs.items() if k != "headers"}
         request_args["headers"] = prepared_headers
 
         response = await self._client.request(method, url, **request_args)
